@@ -19,6 +19,7 @@ EXPLANATION = (
     "documented semantics of jet and jvp (exactness per order, equal series lengths, tangents = time derivative of the primals along the flow, differentiated "
     "callables re-evaluated on probes so that a closure over the initial values is not mistaken for a function); each must return exactly (D0, ..., D_{k-1+num}) for "
     "ODE orders k = 1..3 and num = 1..6 -- loop counts, padding, slices, series alignment and the recursion g_{n+1} = d/dt g_n are thereby decided."
+    "  The residual-based routine: the chain jetexpand_residual -> default Gauss-Newton -> default lstsq -> backend primitive must not end in a rank cutoff (known finding: it does)."
 )
 LEVEL = "other"
 TECHNIQUE = "abstract interpretation over the AST: differentiation-coverage (closure/provenance) analysis of Taylor-mode call sites, must-pass-through guard tracking, derivative-order typestate of the Taylor recursions over a finite grid of static parameters"
